@@ -157,6 +157,17 @@ fn judge(rep: &mut Report, c: &C, s: &Scenario, mem: &Mem, dropped: &[u32], keep
     for (t, v) in s.tys.iter().zip(s.vals) {
         walk_fixed(&abi, t, v, false, &mut in_fixed);
     }
+    if rep.samples.len() < rep.max_samples && mem.count(BlockKind::Realloc) > 0 {
+        let blocks: Vec<serde_json::Value> = mem.allocs.iter().filter(|b| b.kind == BlockKind::Realloc).take(8).map(|b| json!({"from": b.what, "size": b.size, "align": b.align, "times_freed": b.freed})).collect();
+        rep.sample(json!({
+            "unit": c.unit.label, "path": s.path, "scenario": format!("{}:{}", s.entry, if s.own { "lists-and-own" } else { "lists" }),
+            "types": s.tys.iter().map(|t| shorten(&abi.shape_key(t), 160)).collect::<Vec<_>>(),
+            "values": s.vals.iter().map(|v| shorten(&v.text(), 200)).collect::<Vec<_>>(),
+            "width": s.width, "policy": s.policy.name(),
+            "blocks_allocated_by_lowering": mem.count(BlockKind::Realloc), "blocks_live_after_cleanup": mem.live(BlockKind::Realloc).len(),
+            "blocks": blocks, "zero_size_frees": mem.zero_size_frees, "handles_dropped": dropped, "ledger_errors": mem.ledger_errors.len(),
+        }));
+    }
     // bad frees (double, wrong size/align, not owned, unallocated)
     if let Some(e) = mem.ledger_errors.first() {
         violation(rep, c, s, &generic_sig(s, &format!("ledger:{}", e.class), &abi), &e.detail);
@@ -633,6 +644,9 @@ fn main() {
     });
     for p in parts {
         merge(&mut rep, p);
+    }
+    if rep.samples.is_empty() && !work.is_empty() {
+        rep.sample(json!({"fallback": "first unit scheduled", "unit": units[work[0].0].label}));
     }
     rep.write(&args.out());
 }
